@@ -125,9 +125,10 @@ def run_impl(mod, case, c=None, threads=None, perm=None):
     dom = pyPRISM.Domain(length=nb, dk=case['dk'])
     self_ = case['self']
     m1 = np.array(case['M1'], dtype=np.int64); m2 = m1 if self_ else np.array(case['M2'], dtype=np.int64)
-    p1 = np.array([np.array(fr['R1'], dtype=float).reshape(-1, 3) for fr in case['frames']])
-    p2 = p1 if self_ else np.array([np.array(fr['R2'], dtype=float).reshape(-1, 3) for fr in case['frames']])
-    box = np.array([fr['L'] for fr in case['frames']], dtype=float)
+    ft = np.float32 if case.get('f32') else float          # trajectories are often stored in single precision
+    p1 = np.array([np.array(fr['R1'], dtype=ft).reshape(-1, 3) for fr in case['frames']])
+    p2 = p1 if self_ else np.array([np.array(fr['R2'], dtype=ft).reshape(-1, 3) for fr in case['frames']])
+    box = np.array([fr['L'] for fr in case['frames']], dtype=ft)
     if perm is not None:
         s1, s2 = perm
         p1 = p1[:, s1, :]; m1 = m1[s1]
@@ -189,17 +190,21 @@ def suite_sequence(ctx, case):
     dom = pyPRISM.Domain(length=nb, dk=case['dk'])
     set_threads(case['threads'])
     d = mod.Debyer(domain=dom, nthreads=case['c'])
+    kept = []          # (array handed out, its values at that time, the arrays passed in, copies of them)
     for step, call in enumerate(case['calls']):
         sub = dict(case, calls=case['calls'][:step + 1])
         one = dict(call, nbins=nb, dk=case['dk'], c=case['c'], threads=case['threads'])
         ref, tol, k = reference(one)
         self_ = call['self']
         m1 = np.array(call['M1'], dtype=np.int64); m2 = m1 if self_ else np.array(call['M2'], dtype=np.int64)
-        p1 = np.array([np.array(fr['R1'], dtype=float).reshape(-1, 3) for fr in call['frames']])
-        p2 = p1 if self_ else np.array([np.array(fr['R2'], dtype=float).reshape(-1, 3) for fr in call['frames']])
-        box = np.array([fr['L'] for fr in call['frames']], dtype=float)
+        ft = np.float32 if case.get('f32') else float
+        p1 = np.array([np.array(fr['R1'], dtype=ft).reshape(-1, 3) for fr in call['frames']])
+        p2 = p1 if self_ else np.array([np.array(fr['R2'], dtype=ft).reshape(-1, 3) for fr in call['frames']])
+        box = np.array([fr['L'] for fr in call['frames']], dtype=ft)
+        given = (p1, p2, m1, m2, box); copies = tuple(a.copy() for a in given)
         try:
-            out = np.asarray(d.calculate(p1, p2, m1, m2, box, bool(self_)), dtype=float)
+            ret = d.calculate(p1, p2, m1, m2, box, bool(self_))
+            out = np.array(ret, dtype=float)
         except Exception as e:
             ctx.pred('sequence', sub, False, 'call #%d on one Debyer object raised %s: %s' % (step, type(e).__name__, str(e)[:100]), key='C18:raises'); return
         ctx.corr('sequence', sub, ctx.drv.ask(model_line(one)), fl(out), atols=list(tol), what='call #%d of one Debyer object vs the model' % step)
@@ -207,6 +212,12 @@ def suite_sequence(ctx, case):
         ctx.pred('sequence', sub, ok, 'call #%d on one Debyer object (%s, %d x %d sites) is not the Debye sum of its own arguments: %r vs %r' %
                  (step, 'self' if self_ else 'cross', len(m1), len(m2), out[:2].tolist(), ref[:2].tolist()), key='C18:object-history')
         if not ok: return
+        kept.append((ret, out.copy(), given, copies))
+        # what was handed out earlier, and what was passed in, is not touched by later calls
+        still = all(np.array_equal(np.asarray(r0, dtype=float), o0, equal_nan=True) for r0, o0, _, _ in kept)
+        pure = all(np.array_equal(a, b) for _, _, g0, c0 in kept for a, b in zip(g0, c0))
+        ctx.pred('sequence', sub, still, 'a result returned by an earlier call on the same Debyer object changed after call #%d' % step, key='C18:object-history')
+        ctx.pred('sequence', sub, pure, 'an array passed to calculate was modified (call #%d)' % step, key='C18:purity')
 
 SUITES = {'chunk': suite_chunk, 'calc': suite_calc, 'sequence': suite_sequence}
 
@@ -252,7 +263,7 @@ def gen_calc(rng, big=False):
     return {'self': self_, 'M1': M1, 'M2': None if self_ else M2, 'frames': frames, 'fam': fam,
             'nbins': rng.randint(2, 8), 'dk': float('%.5g' % (10 ** rng.uniform(-1.3, 0.5))),
             'c': c, 'threads': rng.choice([1, 2, 3, 4, 8]),
-            'alt_c': sorted(set([1, rng.randint(1, n1 + 2), n1])), 'alt_threads': sorted(set([1, rng.choice([2, 3, 4, 8])])), 'pseed': rng.randrange(10 ** 6)}
+            'alt_c': sorted(set([1, rng.randint(1, n1 + 2), n1])), 'alt_threads': sorted(set([1, rng.choice([2, 3, 4, 8])])), 'pseed': rng.randrange(10 ** 6), 'f32': rng.random() < 0.3}
 
 def generate(ctx):
     rng = ctx.rng
@@ -278,7 +289,7 @@ def generate(ctx):
                 fr = {'L': L, 'R1': gen_positions(rng, 'wrapped', nA, L), 'R2': gen_positions(rng, 'wrapped', nB, L)}
                 calls.append({'self': False, 'M1': MA, 'M2': MB, 'frames': [fr], 'fam': 'wrapped'})
                 calls.append({'self': True, 'M1': MA, 'M2': None, 'frames': [{'L': L, 'R1': fr['R1']}], 'fam': 'wrapped'})
-        case = {'calls': calls, 'nbins': rng.randint(2, 6), 'dk': float('%.5g' % (10 ** rng.uniform(-1.3, 0.5))), 'c': rng.choice([1, 2, 3, 4, 7]), 'threads': rng.choice([1, 2, 4])}
+        case = {'f32': rng.random() < 0.4, 'calls': calls, 'nbins': rng.randint(2, 6), 'dk': float('%.5g' % (10 ** rng.uniform(-1.3, 0.5))), 'c': rng.choice([1, 2, 3, 4, 7]), 'threads': rng.choice([1, 2, 4])}
         ctx.case('sequence', case, True, tags=['sequence:%d' % len(calls), 'chunks:%d' % case['c']])
         suite_sequence(ctx, case)
     for q in range(ctx.n(150, 2500)):
